@@ -87,8 +87,8 @@ theorem geom_fold_dp (eps : ℝ) (heps : 0 < eps) (sens : ℕ) (x x' : ℤ) (hnb
 
 /-! ### Exponential -/
 
-/-- `Exponential.randomise` on cumulative probabilities: candidate `i` is returned for a set of uniforms of measure
-`p_i` (the `isclose` fallback and the RuntimeError are unreachable when the probabilities sum to one) -/
+/-- `Exponential.randomise` on cumulative probabilities (first index with `u < cum_i`): candidate `i` is returned
+exactly for `u ∈ [cum_{i-1}, cum_i)`, a set of uniforms of measure `p_i` (the `isclose` fallback and the RuntimeError are unreachable when the probabilities sum to one) -/
 theorem exp_select_law (rtol atol : ℝ) (ps : List ℝ) (hnn : ∀ p ∈ ps, 0 ≤ p) (hsum : ps.sum = 1) (i : ℕ)
     (hi : i < ps.length) :
     volume {u : ℝ | u ∈ Ico (0:ℝ) 1 ∧ expSelect rtol atol (cumFrom 0 ps) u = .ok i} = ENNReal.ofReal ps[i] :=
@@ -99,9 +99,6 @@ example : volume {u : ℝ | u ∈ Ico (0:ℝ) 1 ∧ expSelect 0 0 (cumFrom 0 [1/
   exp_select_law 0 0 [1/4, 3/4] (by intro p hp; simp at hp; rcases hp with rfl | rfl <;> norm_num) (by norm_num) 1
     (by simp)
 
-private theorem us'_ne {us us' : List ℝ} (hlen : us.length = us'.length) (hne : us ≠ []) : us' ≠ [] := by
-  intro h; apply hne; apply List.eq_nil_of_length_eq_zero; rw [hlen, h]; rfl
-
 /-- the exponential mechanism as coded (shift by `max(utility)`, `exp`, base measure, normalisation): utility vectors
 within `sensitivity` in sup-norm, scale `ε/(2·sensitivity)`, non-negative measure with a positive entry (or none) -/
 theorem exp_dp (eps sens tol : ℝ) (heps : 0 < eps) (hsens : 0 < sens) (us us' ms : List ℝ)
@@ -109,7 +106,7 @@ theorem exp_dp (eps sens tol : ℝ) (heps : 0 < eps) (hsens : 0 < sens) (us us' 
     (hm0 : ∀ m ∈ ms, 0 ≤ m) (hpos : ms = [] ∨ ∃ m ∈ ms, 0 < m)
     (hnb : ∀ i (h1 : i < us.length) (h2 : i < us'.length), |us[i] - us'[i]| ≤ sens) (i : ℕ) :
     (expPmf eps sens false tol us ms).getD i 0 ≤ Real.exp eps * (expPmf eps sens false tol us' ms).getD i 0 := by
-  have hne' := us'_ne hlen hne
+  have hne' := length_ne_nil hlen hne
   have hms' : ms = [] ∨ ms.length = us'.length := by rw [← hlen]; exact hms
   unfold expPmf
   have hsc : expScale eps sens false = some (eps / sens / 2) := by simp [expScale, div_pos hsens heps]
@@ -133,7 +130,7 @@ theorem exp_dp_monotonic (eps sens tol : ℝ) (heps : 0 < eps) (hsens : 0 < sens
     (hnb : ∀ i (h1 : i < us.length) (h2 : i < us'.length), us[i] ≤ us'[i] ∧ us'[i] ≤ us[i] + sens) (i : ℕ) :
     (expPmf eps sens true tol us ms).getD i 0 ≤ Real.exp eps * (expPmf eps sens true tol us' ms).getD i 0 ∧
     (expPmf eps sens true tol us' ms).getD i 0 ≤ Real.exp eps * (expPmf eps sens true tol us ms).getD i 0 := by
-  have hne' := us'_ne hlen hne
+  have hne' := length_ne_nil hlen hne
   have hms' : ms = [] ∨ ms.length = us'.length := by rw [← hlen]; exact hms
   unfold expPmf
   have hsc : expScale eps sens true = some (eps / sens / 1) := by simp [expScale, div_pos hsens heps]
